@@ -109,6 +109,7 @@ type TermCtx struct {
 	ufs map[string]*UFSig
 	// input variables in declaration order
 	vars []*Term
+	InjectiveUsed bool
 }
 
 type UFSig struct {
@@ -1070,10 +1071,91 @@ func (c *TermCtx) Eq(a, b *Term) *Term {
 			}
 		}
 	}
+	// concat(p1..pn) == b: compare part-wise (lets per-byte facts decide)
+	if a.Op == OpConcat || b.Op == OpConcat {
+		if a.Op != OpConcat {
+			a, b = b, a
+		}
+		pos := a.W
+		conj := make([]*Term, 0, len(a.A))
+		for _, p := range a.A {
+			hi := pos - 1
+			lo := pos - p.W
+			pos = lo
+			e := c.Eq(p, c.Extract(b, hi, lo))
+			if e.IsFalse() {
+				return c.False
+			}
+			conj = append(conj, e)
+		}
+		return c.And(conj...)
+	}
+	// x ^ y == x  <=>  y == 0 ;  x ^ y == x ^ z  <=>  y == z
+	if a.Op == OpXor || b.Op == OpXor {
+		if a.Op != OpXor {
+			a, b = b, a
+		}
+		for i := 0; i < 2; i++ {
+			if a.A[i] == b {
+				return c.Eq(a.A[1-i], c.Const(a.W, 0))
+			}
+		}
+		if b.Op == OpXor {
+			for i := 0; i < 2; i++ {
+				for j := 0; j < 2; j++ {
+					if a.A[i] == b.A[j] {
+						return c.Eq(a.A[1-i], b.A[1-j])
+					}
+				}
+			}
+		}
+	}
+	// collision-freeness of hash-like uninterpreted functions, applied as a
+	// rewrite: f(x) == f(y) (on at least the leading 8 bytes) <=> x == y
+	if r := c.injectiveEq(a, b); r != nil {
+		return r
+	}
 	if a.id > b.id && !b.IsConst() {
 		a, b = b, a
 	}
 	return c.node(OpEq, 0, 0, 0, "", a, b)
+}
+
+func isInjectiveUF(name string) bool {
+	return strings.HasPrefix(name, "sha") || strings.HasPrefix(name, "hmac_") || strings.HasPrefix(name, "h_") || (strings.HasPrefix(name, "modexp_m") && c_modexpInjective(name))
+}
+
+func c_modexpInjective(name string) bool {
+	// modexp_m<bits>_...: only for moduli of at least 56 bits
+	var bits int
+	fmt.Sscanf(name, "modexp_m%d_", &bits)
+	return bits >= 56
+}
+
+func (c *TermCtx) injectiveEq(a, b *Term) *Term {
+	ua, ub := a, b
+	if a.Op == OpExtract && b.Op == OpExtract {
+		if a.P1 != b.P1 || a.P2 != b.P2 {
+			return nil
+		}
+		ua, ub = a.A[0], b.A[0]
+		// must be a prefix (leading bits) of at least 64 bits (or the whole value)
+		if a.P1 != ua.W-1 || (a.P1-a.P2+1 < 64 && a.P2 != 0) {
+			return nil
+		}
+	}
+	if ua.Op != OpUF || ub.Op != OpUF || ua.Name != ub.Name || ua.W != ub.W || !isInjectiveUF(ua.Name) {
+		return nil
+	}
+	if len(ua.A) != len(ub.A) {
+		return nil
+	}
+	c.InjectiveUsed = true
+	conj := make([]*Term, len(ua.A))
+	for i := range ua.A {
+		conj[i] = c.Eq(ua.A[i], ub.A[i])
+	}
+	return c.And(conj...)
 }
 
 func (c *TermCtx) Cmp(op Op, a, b *Term) *Term {
